@@ -223,7 +223,7 @@ func propC20(t *rapid.T) {
 	}
 	// prefix in stepped mode
 	n := rapid.IntRange(1, 6).Draw(t, "prefix")
-	long := ev.Thorough() && rapid.IntRange(0, 3).Draw(t, "longChain") == 0
+	long := rapid.IntRange(0, 7).Draw(t, "longChain") == 0 || (ev.Thorough() && rapid.IntRange(0, 3).Draw(t, "longChainT") == 0)
 	for i := 0; i < n; i++ {
 		if rapid.IntRange(0, 5).Draw(t, "reorgInPrefix") == 0 && w.node.Height() >= 1 {
 			w.actReorg(t)
@@ -275,7 +275,7 @@ func propC20(t *rapid.T) {
 	}
 
 	// the burst
-	burst := rapid.SliceOfN(rapid.SampledFrom([]string{"blocks", "blocks", "import", "remove", "reorg"}), 1, 4).Draw(t, "burst")
+	burst := rapid.SliceOfN(rapid.SampledFrom([]string{"blocks", "blocks", "import", "remove", "reorg", "importStorm"}), 1, 4).Draw(t, "burst")
 	inflight := false
 	for _, op := range burst {
 		stopping := false
@@ -321,6 +321,36 @@ func propC20(t *rapid.T) {
 				l.logf("import %s accepted", keys.ID[:10])
 			} else {
 				l.logf("import -> %v", err)
+			}
+		case "importStorm":
+			// several imports back to back; in half of the cases the node has just reorganised and the
+			// follower has not been told yet, so the first rescan keeps asking to be retried ("continuable")
+			// while the others are accepted. The service may refuse some requests (too many tasks), but
+			// every one it accepts must finish - also the one that is being worked on and re-queued.
+			if w.node.Height() >= 2 && rapid.Bool().Draw(t, "stormAfterSilentReorg") {
+				w.actReorg(t) // its announcement is handed to the follower after the storm (end of this step)
+				w.flag("requests-while-a-rescan-waits-for-a-reorganisation")
+			}
+			for k := 0; k < 5; k++ {
+				ent := rapid.SliceOfN(rapid.Byte(), 16, 16).Draw(t, "entropyStorm")
+				keys, _ := sim.EntropyFor(ent, "pass9Xst")
+				if keys == nil {
+					continue
+				}
+				dup := false
+				for _, id := range l.accepted {
+					dup = dup || id == keys.ID
+				}
+				if dup {
+					continue
+				}
+				if _, err := w.env.W.ImportWalletWithMnemonic(&keystore.WalletParams{Mnemonic: keys.Mnemonic, PrivatePassphrase: []byte(keys.Pass), Remarks: "storm", AddressGapLimit: 20}); err == nil {
+					l.accepted = append(l.accepted, keys.ID)
+					inflight = true
+					l.logf("import %s accepted (storm)", keys.ID[:10])
+				} else {
+					l.logf("import (storm) -> %v", err)
+				}
 			}
 		case "remove":
 			if len(w.wallets) == 0 {
